@@ -60,4 +60,36 @@ PROPS = {
     "C15": dict(lean=["GoatSpec.Properties.C15"], streams=[], e2e=["crash"],
                 trusted=["modelled, not verified: os.WriteFile atomicity at whole-file granularity (A8); the crash hook lets writes already past their boundary finish (threads>1)"],
                 assumptions=["A8: crash granularity is whole-file writes (torn writes are out of scope by the property's own text)"]),
+    "C08": dict(
+        lean=["GoatSpec.Properties.C08"],
+        streams=[],
+        e2e=["threads"],
+        partial="PARTIAL. Proved (Lean, all task lists / completion orders / permutations / interleavings): the aggregation logic of the worker pools is order-independent - "
+                "results written by index (pool_by_index), filterValidFileChanges returns the valid entries as a multiset (filterValid_perm_valid), any sort by unique path yields one list and "
+                "hence one id plan (sorted_perm_unique, numbering_perm, plan_schedule_independent), whole-file writes with distinct paths commute (collect_perm), an atomic OR-reduction of the "
+                "changed flag yields the disjunction under every interleaving (or_reduce_atomic); witness changed_lost_update for the pinned non-atomic read-modify-write (D-C08-1). "
+                "NOT proved, only monitored end to end (assumption_monitor, e2e threads): that the Go code is such a skeleton, i.e. absence of data races under the Go memory model, go-git's "
+                "internal mutable state, the file system - byte-identical trees over threads x GOMAXPROCS x precision x loose/packed x track/patch/clean x repetition, and `go build -race` executions "
+                "that must report neither DATA RACE nor concurrent map access.",
+        trusted=["modelled, not verified: that each worker task is a function of its input alone and that the steps of the skeleton are atomic (Go memory model, sync.WaitGroup/channel semantics, "
+                 "sync/atomic, go-git storage, os file API); the Go race detector (reports only races of the observed executions)"],
+        assumptions=["A8 (monitored, not proved): the Go implementation has no data race between worker goroutines; each per-file task (diff analysis, tracker, patch/clean content) is a pure function of "
+                     "the repository and file contents; paths of changed files are pairwise distinct"],
+    ),
+    "C14": dict(
+        lean=["GoatSpec.Properties.C14"],
+        streams=[],
+        e2e=["behaviour"],
+        partial="PARTIAL. Proved (Lean, every program given as a labelled transition system over UserState x Coverage - nondeterministic, any number of goroutines inside the state - every trace, "
+                "every placement of tracking calls): erase_track / lift_track / same_behaviours (deleting the tracking steps of an execution of the instrumented build gives an execution of the original "
+                "with the same output and final user state, and conversely), track_commutes / swap_adjacent, covered_exact (status id > 0 iff a track id step occurred; count mode exact counts, through "
+                "C07 status_counts), and the same for an instrumented program with its own control states from three frame conditions (instr_erase_track, instr_lift_track). "
+                "NOT proved, only monitored end to end (assumption_monitor, e2e behaviour): that a Go statement sequence with goat's inserted blocks is such a transition system satisfying the frame "
+                "conditions (Go's dynamic semantics, scheduling, the service goroutine) - original vs instrumented binaries of generated deterministic programs: equal stdout and exit status, "
+                "ids reported covered == ids recorded by an independent probe next to every tracking call.",
+        trusted=["modelled, not verified: Go's dynamic semantics and scheduler; the Go compiler; the harness-side probe rewrite (VerifHit next to every tracking call, VerifDump at the top of main, "
+                 "os.Exit -> VerifExit in the driver) is trusted not to change behaviour (its build is compared with the original as well)"],
+        assumptions=["A10 (monitored, not proved): a Go program with goat's blocks inserted between statements is a transition system in which Track steps touch only trackIdStatus and user steps never "
+                     "read it (frame conditions user_sim, track_stutter, lift of NonInterf.Instr); programs are deterministic (checked: the original is run twice); GOAT_PORT=0 so the service goroutine cannot fail"],
+    ),
 }
